@@ -116,7 +116,10 @@ class Abs26Relocation(Relocation):
 
     def calc(self, sym_value, reloc_value):
         assert sym_value % 4 == 0
-        return sym_value >> 2
+        # j / jal keep the upper four address bits of the delay slot
+        if (sym_value >> 28) != ((reloc_value + 4) >> 28):
+            raise ValueError("jump target outside the current 256 MB region")
+        return (sym_value >> 2) & 0x3FFFFFF
 
 
 # Memory instructions:
